@@ -87,12 +87,12 @@ Definition check_label_name (l : str) : bool := label_name_valid l && negb (has_
 (* ------------------------------------------------------------------ errors *)
 Inductive err :=
 | ErrMetricName | ErrLabelName | ErrUtf8Value | ErrDuplicate | ErrCardinality | ErrValueType
-| ErrSchema | ErrCount | ErrBucketIndex | ErrExName | ErrExValue | ErrExRunes | ErrNoExemplar | ErrInject.
+| ErrSchema | ErrCount | ErrBucketIndex | ErrExName | ErrExValue | ErrExRunes | ErrNoExemplar | ErrInject | ErrCtType.
 Definition err_code (e : err) : Z :=
   match e with
   | ErrMetricName => 1 | ErrLabelName => 2 | ErrUtf8Value => 3 | ErrDuplicate => 4 | ErrCardinality => 5
   | ErrValueType => 6 | ErrSchema => 7 | ErrCount => 8 | ErrBucketIndex => 9 | ErrExName => 10
-  | ErrExValue => 11 | ErrExRunes => 12 | ErrNoExemplar => 13 | ErrInject => 14
+  | ErrExValue => 11 | ErrExRunes => 12 | ErrNoExemplar => 13 | ErrInject => 14 | ErrCtType => 15
   end.
 Inductive res (A : Type) := Ok (a : A) | Err (e : err).
 Arguments Ok {A} a. Arguments Err {A} e.
@@ -181,7 +181,21 @@ Definition new_const_metric (d : desc) (vt : Z) (v : f64) (lvs : list str) : res
       end
   end.
 
+(* value.go NewConstMetricWithCreatedTimestamp: same checks, then only counters are accepted *)
+Definition new_const_metric_ct (d : desc) (vt : Z) (v : f64) (lvs : list str) : res simple_out :=
+  match d_err d with
+  | Some e => Err e
+  | None =>
+      match validate_label_values lvs (Z.of_nat (length (d_vars d))) with
+      | Some e => Err e
+      | None => if vt =? 1 then Ok (mkSimple (make_label_pairs d lvs) vt v) else Err ErrCtType
+      end
+  end.
+
 (* ------------------------------------------------------------------ const histogram / summary *)
+(* NewConstHistogramWithCreatedTimestamp / NewConstSummaryWithCreatedTimestamp perform the same checks and
+   write the same buckets / quantiles (plus the created timestamp, which is not modelled); the Must* forms
+   panic with the error exactly when the plain forms return it. *)
 Definition fpair_lt {B} (a b : f64 * B) : bool := flt (fst a) (fst b).   (* buckSort.Less / quantSort.Less *)
 
 Record hist_out := mkHistOut { ho_labels : list lpair; ho_count : Z; ho_sum : f64; ho_buckets : list (f64 * Z) }.
